@@ -262,6 +262,17 @@ def main(ctx):
                   lambda i: multipliers.generalized_fma([(i[0], i[1]), (i[2], i[3])], [i[4]]),
                   lambda v: v[0] * v[1] + v[2] * v[3] + v[4], rng, limit, 'generalized_fma', {'npairs': 2})
         comb_case(ctx, 'fast_group_adder2', list(q[:2]), lambda i: adders.fast_group_adder(i), lambda v: sum(v), rng, limit, 'fast_group_adder')
+    # degenerate argument lists: one operand, products only, addends only (the reducer has nothing to add up)
+    for w1 in range(1, ctx.n(6, 9)):
+        for red in (adders.wallace_reducer, adders.dada_reducer):
+            comb_case(ctx, 'fast_group_adder1_' + red.__name__, [w1], lambda i, red=red: adders.fast_group_adder(i, reducer=red),
+                      lambda v: v[0], rng, limit, 'fast_group_adder' if red is adders.wallace_reducer else None)
+        comb_case(ctx, 'generalized_fma_addend_only', [w1], lambda i: multipliers.generalized_fma([], [i[0]]), lambda v: v[0], rng, limit,
+                  'generalized_fma', {'npairs': 0})
+        comb_case(ctx, 'generalized_fma_1xN', [1, w1], lambda i: multipliers.generalized_fma([(i[0], i[1])], []),
+                  lambda v: v[0] * v[1], rng, limit, 'generalized_fma', {'npairs': 1})
+        comb_case(ctx, 'generalized_fma_Nx1', [w1, 1], lambda i: multipliers.generalized_fma([(i[0], i[1])], []),
+                  lambda v: v[0] * v[1], rng, limit, 'generalized_fma', {'npairs': 1})
     sq_n = sq_bad = 0
     for (wa, wb) in [(a, b) for a in range(1, ctx.n(5, 8)) for b in range(1, ctx.n(5, 8))]:
         seq_case(ctx, 'simple_mult', wa, wb, None, rng)
